@@ -718,6 +718,32 @@ func Run(r *mc.Run) {
 			return vs
 		}, fi == nfam4/2)
 	})
+	// third family (both tiers): a three-document first segment followed by two single-operation
+	// segments — with the partial merge plan the big segment stays (two live documents, one obsoleted)
+	// while the two small ones merge behind it: the layout [kept segment with a deletion, merged segment].
+	var fam3 [][]op
+	tail := []op{{id: "p", ver: 1}, {del: true, id: "p"}, {del: true, id: "q"}, {id: "s", ver: 0}, {id: "s", ver: 2}, {id: "r", ver: 3}}
+	for _, a := range tail {
+		for _, b := range tail {
+			fam3 = append(fam3, []op{{id: "p", ver: 0}, {id: "q", ver: 0}, {id: "r", ver: 0}, a, b})
+		}
+	}
+	var kept []layout
+	for _, l := range lays {
+		if l.name == "disk-partial-merge" || l.name == "disk-nomerge+reopen" {
+			kept = append(kept, l)
+		}
+	}
+	r.Note("kept_segment_histories", len(fam3))
+	r.ParFor(len(fam3), 0, func(fi int) {
+		compare(fam3[fi], func(n int) []variant {
+			var vs []variant
+			for _, l := range kept {
+				vs = append(vs, variant{l, [][]int{{0, 1, 2}, {3}, {4}}, "[[0 1 2] [3] [4]]"})
+			}
+			return vs
+		}, false)
+	})
 	r.Count("layouts_with_fewer_segments_than_baseline", nseg)
 	r.Count("builds_where_all_batches_were_merged_in_memory_by_one_persister_round", atomic.LoadInt64(&piledUp))
 	r.Sample(map[string]any{"history": "I(p,v0) I(q,v2) D(p)", "layouts": "baseline per-op | [[0 1] [2]] | [[0] [1 2]] | one batch | disk-aggressive-merge | disk-nomerge+forcemerge+reopen | disk-unsafe-2-persister-workers | mem-zap15"})
